@@ -3,6 +3,11 @@ Driver handler `pyjson`: the transcription of CPython 3.12 `json.dumps` / `json.
 
   pyjson dumps  <hex of the canonical encoding of a value>   → hex of the text `json.dumps(v)`
   pyjson dumpss <hex of the canonical encoding of a value>   → hex of the text `json.dumps(v, sort_keys=True)`
+  pyjson cj     <hex of the canonical encoding of a value>   → hex of the text
+                                                               `json.dumps(v, sort_keys=True, separators=(',', ':'), ensure_ascii=False)`
+  pyjson dumpsf <0|1> <w1> <w2> <w3> <w4> <value>            → hex of the text
+                                                               `json.dumps(v, ensure_ascii=<0|1>, separators=(w1 + ',' + w2, w3 + ':' + w4))`
+                                                               (the four `w` are hex strings)
   pyjson loads  <hex of a text>                              → hex of the canonical encoding of `json.loads(text)`
                                                                | err JSONDecodeError | unsupported
   pyjson unsupported                                         → unsupported   (what the Python side sends for a value that
@@ -124,6 +129,17 @@ def handle : List String → String
   | ["dumpss", t] => orBad do
     let v ← decValue? t
     pure (hexEnc (dumpsSorted v))
+  | ["cj", t] => orBad do
+    let v ← decValue? t
+    pure (hexEnc (cj v))
+  | ["dumpsf", a, w1, w2, w3, w4, t] => orBad do
+    let v ← decValue? t
+    let w1 ← hexDec? w1
+    let w2 ← hexDec? w2
+    let w3 ← hexDec? w3
+    let w4 ← hexDec? w4
+    let fmt : Fmt := ⟨a == "1", w1.toList, w2.toList, w3.toList, w4.toList⟩
+    pure (hexEnc (String.ofList (dumpsF fmt v)))
   | ["loads", t] => orBad do
     let s ← hexDec? t
     pure (replyLoads (loads s))
